@@ -4,7 +4,7 @@ import json
 import os
 import re
 
-from vlib import sched, sigexec, sigreal
+from vlib import sched, sigexec, sigphase, sigreal, sigthread
 from vlib.sigcheck import (PLANS, SGN, SIGINT, SIGTSTP, TRUSTED, accept_all, analyse, detect_shutdown_form, detect_worker_form, explore_sig,
                            gen_case, offenders, pack, plan_signals, project_sig)
 
@@ -30,8 +30,13 @@ def assumptions(variant, wform="blind", sform="pinned"):
             "(repair of F20-LATEINT): a tree that stops the watchdog but does not join the signals thread is rejected by "
             "the acceptor at `D return`; what happens after exit() was called (atexit/stdio flush racing with other "
             "threads) is a runtime behaviour outside model and harness",
-            "fanout >= 1, -k off, connect/command timeouts off (C07 owns the watchdog), pthread_create and rcmd_create "
-            "succeed, the clock is past INTR_TIME at start, every command ends",
+            "fanout >= 1, -k off, pthread_create and rcmd_create succeed, the clock is past INTR_TIME at start, every "
+            "command ends; connect/command timeouts off except in class timeouts/every-position (-u 2), whose runs are "
+            "also followed by the LTS: it has the watchdog's lock / kill / unlock of thd_mutex and the read loop that is "
+            "given up (W.lockTF, result DSH_FAILED) but not the watchdog's clock - when a time-out fires is the "
+            "schedule's choice (C07 owns the deadlines)",
+            "stdio: per-call atomicity (a call locks the FILE, copies, unlocks) is the modelled guarantee of the product "
+            "model Dsh/SignalsOutput.lean; the check compares where dsh.c makes its stdio calls with the model's `emits`",
             "wait-for-room construct of the checked tree, detected by behaviour: %s (the C20 theorems hold for both)" % variant]
 
 
@@ -88,7 +93,22 @@ def corpus_cases():
              choices="D D D D D D D D D D D W0 W0 W0 W0 W1 W1 W1 i2 Z Z Z i20 Z Z Z".split()),
         # batch ^C before the first connection
         dict(base, fanout=1, hosts=two, opts=dict(opts, batch=1), choices="D D D i2 Z Z Z".split()),
+        # a refused connect (the worker's failure path must still go through its epilogue), without and with ^C / -b ^C
+        dict(base, fanout=1, hosts=[dict(one[0], connect="refuse")] + two[1:], opts=opts, choices=[]),
+        dict(base, fanout=1, hosts=[dict(one[0], connect="refuse")] + two[1:], opts=opts, choices=[], signals=[[9, SIGINT]]),
+        dict(base, fanout=2, hosts=[dict(one[0], connect="refuse")] + two[1:], opts=dict(opts, batch=1), choices=[],
+             signals=[[14, SIGINT]]),
+        # the first two again with the copy personality (workers are _rcp_thread)
+        dict(base, fanout=1, hosts=one, opts=dict(opts, pers="pcp"),
+             choices="D D D D D D i2 Z Z Z i20 Z Z Z W0".split()),
+        dict(base, fanout=1, hosts=two, opts=dict(opts, pers="pcp"),
+             choices="D D D D D D D D W0 W0 W0 i2 Z Z Z i20 Z Z Z".split()),
     ]
+
+
+def timed(case):
+    o = case.get("opts") or {}
+    return bool(int(o.get("ct", 0)) or int(o.get("ut", 0)))
 
 
 def base_key(case):
@@ -98,6 +118,14 @@ def base_key(case):
 def replay_case(ctx, exe, variant, wform, sform):
     rp = json.load(open(ctx.replay))
     case = (rp.get("case") or {}).get("case") or rp.get("case")
+    if isinstance(rp.get("case"), dict) and rp["case"].get("scenario") and "sigthread" in str(rp["case"].get("harness")):
+        offs, nsc, tdist = sigthread.run(ctx)
+        for sig, what, c in offs:
+            ctx.log("replay: %s %s" % (sig, what))
+            ctx.offender(sig, what, c)
+        if not offs:
+            ctx.log("replay: all %d real-thread scenarios behave as the property says" % nsc)
+        return
     if isinstance(rp.get("case"), dict) and rp["case"].get("scenario"):
         offs, nsc = sigexec.run(ctx)
         for sig, what, c in offs:
@@ -121,7 +149,7 @@ def replay_case(ctx, exe, variant, wform, sform):
     res = sched.run_case(exe, case, ctx.scratch)
     b = sched.run_case(exe, dict(case, strategy="uniform", choices=[], signals=[]), ctx.scratch)
     _, bf = offenders(b, None)
-    offs, facts = offenders(res, (b["M"], bf["A"]) if b["M"] and "A" in bf else None)
+    offs, facts = offenders(res, (b["M"], bf["A"]) if b["M"] and "A" in bf and not timed(case) else None)
     if res["crash"] is None and not res["bug"] and facts["domain"]:
         bad = accept_all(ctx, [project_sig(res, variant, wform, sform)])[0]
         if bad is not None:
@@ -144,7 +172,17 @@ def run(ctx, PROPS, LEVEL):
     cov = {"evaluations": 0, "distinct_nontrivial": 0, "samples": [],
            "rule": "one evaluation = one complete run of the unmodified dsh() (built from the working tree) under the "
                    "controlled scheduler with one schedule that also decides when SIGINT/SIGTSTP are delivered and when "
-                   "the clock ticks.  (a) corpus schedules; (b) exhaustive: state-hashed DFS over ALL schedules x ALL "
+                   "the clock ticks.  (0) the real execcmd.c/pipecmd.c on real children; the real dsh.c on REAL threads and "
+                   "REAL signals (kill(2)) with a gated transport and a settable clock (distribution.real_threads: single "
+                   "^C, ^C ^C and ^C ^Z 0/1/2 s apart, -S, lone ^Z, -b, before the first connection, after the last "
+                   "completion); (a) corpus schedules; (a2) deterministic situations reached by steering the "
+                   "scheduler (distribution.situations): a host in each of the six phases at once with the watchdog or a "
+                   "worker holding either mutex, 0..3 seconds on the clock between the first ^C and a second ^C / ^Z "
+                   "(1 = exactly INTR_TIME), signals around every step of the shutdown tail, each with every signal plan, "
+                   "with and without -b; (a3) ^C then ^C / ^Z with the first at every position and the second at every "
+                   "distance on two tiny configurations; (a4) -u 2 with a hanging, a slow and a pending host: a signal at "
+                   "every position while the watchdog times hosts out (the LTS follows: lock / kill / unlock of the "
+                   "watchdog, read loop given up = W.lockTF); (b) exhaustive: state-hashed DFS over ALL schedules x ALL "
                    "delivery points x clock ticks of tiny configurations (distribution.dfs); (c) every position: for "
                    "each small configuration (N<=3) and base schedule the first signal of each plan (INT, INT-INT, "
                    "INT-TSTP, TSTP; with and without -b) is delivered at EVERY step of the trace, the second at a set of "
@@ -217,7 +255,21 @@ def run(ctx, PROPS, LEVEL):
                 ok = False
                 dist["out_of_domain"] += 1
             doms.append(ok)
+        # (runs with a command time-out are followed by the LTS too: the watchdog's lock / kill / unlock and the read loop
+        #  that is given up - `W.lockTF`, result DSH_FAILED - are in it; WHEN the watchdog acts is left to the schedule)
         batches = [project_sig(r, variant, wform, sform) if ok else None for r, ok in zip(results, doms)]
+        ob = dist.setdefault("observations", {"stdio_calls_checked": 0, "listings_compared": 0, "watchdog_kills_inside_mutex": 0,
+                                              "read_loops_given_up": 0})
+        for b in batches:
+            for l in b or ():
+                if l.startswith("obs emit"):
+                    ob["stdio_calls_checked"] += 1
+                elif l.startswith("obs list"):
+                    ob["listings_compared"] += 1
+                elif l == "obs gkill":
+                    ob["watchdog_kills_inside_mutex"] += 1
+                elif l.endswith(" lockTF"):
+                    ob["read_loops_given_up"] += 1
         idx = [i for i, b in enumerate(batches) if b is not None]
         verdicts = accept_all(ctx, [batches[i] for i in idx]) if idx else []
         for i, bad in zip(idx, verdicts):
@@ -231,7 +283,8 @@ def run(ctx, PROPS, LEVEL):
             m = r["M"] or {}
             st = m.get("status", "crash")
             dist["status"][st] = dist["status"].get(st, 0) + 1
-            offs, facts = offenders(r, base_of(r["case"]))
+            # (with time-outs the clock decides which hosts are given up: no signal-free twin to compare with)
+            offs, facts = offenders(r, None if timed(r["case"]) else base_of(r["case"]))
             for e in facts["episodes"]:
                 k = "%s:%s:%s" % (SGN.get(e["sig"], e["sig"]), e["kind"],
                                   "exit" if e["exit"] is not None else "cancel" if e["cancel"] else
@@ -272,8 +325,69 @@ def run(ctx, PROPS, LEVEL):
         newcount[0] += 1
         ctx.offender(sig, what, c)
 
+    # (0b) real threads, real signals, no wall-clock race: the real dsh.c on a gated transport with a settable clock
+    toffs, nts, tdist = sigthread.run(ctx)
+    cov["evaluations"] += nts
+    dist["real_threads"] = tdist
+    for sig, what, c in toffs:
+        newcount[0] += 1
+        ctx.offender(sig, what, c)
+    ctx.log("real threads and signals (gated transport): %d scenarios, %d not ok" %
+            (nts, sum(1 for v in tdist.values() if v != "ok")))
+
     # (a) corpus
     consume(sched.run_many(exe_san, corpus_cases(), ctx.scratch), "corpus")
+
+    # (a2) deterministic situations (vlib/sigphase.py): a host in each phase / a mutex held by the watchdog or a worker /
+    #      the INTR_TIME boundary on the clock / the shutdown tail; the schedules are found by steering, not by chance
+    dist["situations"] = {}
+    pcs, prep = sigphase.phase_cases(exe, ctx.scratch, rng)
+    for k, v in prep.items():
+        dist["situations"][k] = v
+        if v == "unreachable":
+            # not an error by itself (a tree without the watchdog repair has no `cancel G`); what the tree does instead is
+            # judged by the runs that do happen
+            ctx.notes.append("situation `%s` not reachable by steering the scheduler in this tree" % k)
+    byplan = {}
+    for c in pcs:
+        byplan.setdefault(c["_plan"], []).append(c)
+        dist["plans"][c["_plan"]] = dist["plans"].get(c["_plan"], 0) + 1
+        dist["batch"][str(c["opts"]["batch"])] += 1
+    for plan, cs in byplan.items():
+        # half of them under ASan/UBSan
+        consume(sched.run_many(exe_san, cs[0::2], ctx.scratch) + sched.run_many(exe, cs[1::2], ctx.scratch), plan)
+    ctx.log("deterministic situations: %d runs (%s)" % (len(pcs), ", ".join(
+        "%s=%s" % (k, sum(v for kk, v in prep.items() if kk.startswith(k) and v != "unreachable"))
+        for k in ("phases", "boundary", "drain"))))
+
+    # (a3) ^C then ^C / ^Z: the first at every position, the second at every distance
+    if not enough():
+        prs = sigphase.pair_cases(exe, ctx.scratch, rng, ctx.quick())
+        byplan = {}
+        for c in prs:
+            byplan.setdefault(c["_plan"], []).append(c)
+            dist["plans"][c["_plan"]] = dist["plans"].get(c["_plan"], 0) + 1
+            dist["batch"][str(c["opts"]["batch"])] += 1
+            dist["situations"][c["_class"]] = dist["situations"].get(c["_class"], 0) + 1
+        for plan, cs in byplan.items():
+            for i in range(0, len(cs), 1500):
+                if not enough():
+                    consume(sched.run_many(exe, cs[i:i + 1500], ctx.scratch), plan)
+        ctx.log("every pair of positions: %d runs" % len(prs))
+
+    # (a4) interrupts while the watchdog is timing hosts out (-u 2: one host hangs, one is slow, one is pending): a signal
+    #      at every position of the run, incl. between the watchdog's lock, its pthread_kill and its unlock
+    if not enough():
+        tcs = sigphase.timeout_cases(exe, ctx.scratch, rng)
+        byplan = {}
+        for c in tcs:
+            byplan.setdefault(c["_plan"], []).append(c)
+            dist["plans"][c["_plan"]] = dist["plans"].get(c["_plan"], 0) + 1
+            dist["batch"][str(c["opts"]["batch"])] += 1
+            dist["situations"][c["_class"]] = dist["situations"].get(c["_class"], 0) + 1
+        for plan, cs in byplan.items():
+            consume(sched.run_many(exe, cs, ctx.scratch), plan)
+        ctx.log("interrupts during time-outs: %d runs" % len(tcs))
 
     # (b) exhaustive DFS: all schedules x all delivery points x ticks
     one = [{"name": "h0", "out": [[1, b"o0-0\n".hex()], [1, "EOF"]]}]
